@@ -565,6 +565,8 @@ class Episode(object):
                 self.fired['transport_' + k2] += tr[k2]
         if w.kernel.exec_failures:
             self.fired['exec_failure'] += w.kernel.exec_failures
+        if w.kernel.signal_failures:
+            self.fired['signal_eperm'] += w.kernel.signal_failures
         self.digest = w.digest() if s.log_enabled else None
         import socket as _socket
         for c in getattr(self, 'clients', []):
